@@ -356,7 +356,7 @@ func (x *Exec) validate(ctx context.Context, database, username, password string
 		cls = password[:i]
 	}
 	switch cls {
-	case "good", "err", "errc":
+	case "good", "err", "errc", "gooderr":
 		ret = cls
 	}
 	x.cb(ctx, M{"name": "validate", "db": database, "user": username, "pw": password, "ret": ret})
@@ -365,6 +365,8 @@ func (x *Exec) validate(ctx context.Context, database, username, password string
 		return ctx, true, nil
 	case "err":
 		return ctx, false, errors.New("validator failed")
+	case "gooderr":
+		return ctx, true, errors.New("the password matches but the login could not be recorded")
 	case "errc":
 		// a failure that carries a SQLSTATE and a severity of its own (an unknown database, say)
 		return ctx, false, pgerr.WithSeverity(pgerr.WithCode(errors.New("database does not exist"), codes.Code("3D000")), pgerr.LevelFatal)
